@@ -34,7 +34,7 @@ def explore(ctx, depth):
     from kernpy.core import gkern as G
     from kernpy.core.pitch_models import AgnosticPitch
     octs = list(range(0, 9)) if depth == 'quick' else list(range(-5, 15))
-    alts = [0, 1, 2, -1, -2] if depth == 'quick' else [0, 1, 2, 3, -1, -2, -3]
+    alts = [0, 1, 2, 3, -1, -2, -3]        # triple accidentals in both tiers (round 6, C10_r6_1: a `{0,2}` quantifier)
     cases = [(c, m, l, a, o) for c in CLEFS for m in MARKS for l in range(7) for a in alts for o in octs]
     texts = {(c, m): '*clef' + c[0] + m + c[1] for c in CLEFS for m in MARKS}
     resp = ctx.driver.ask([{'op': 'c10.case', 'clef': texts[(c, m)], 'l': l, 'a': a, 'o': o} for c, m, l, a, o in cases])
